@@ -977,12 +977,23 @@ func genConc(rng *rand.Rand) concCase {
 			}
 			return rng.IntN(nPeers)
 		}
+		// every third round or so is a notification storm: all goroutines deliver Connected/Disconnected
+		// back to back (the global connection count is the only state they share)
+		storm := rng.IntN(3) == 0
 		for w := range round {
 			n := 3 + rng.IntN(5)
+			if storm {
+				n = 8 + rng.IntN(6)
+			}
 			for len(round[w]) < n {
 				p := pickPeer()
 				var o op
-				switch x := rng.IntN(100); {
+				x := rng.IntN(100)
+				if storm && x >= 28 {
+					x = rng.IntN(28)
+					p = rng.IntN(nPeers)
+				}
+				switch {
 				case x < 18: // conn slots and protection tags have one owner per round
 					o = genConnOp(rng)
 					o.P = p
